@@ -339,7 +339,12 @@ class Wild(Obj):
     def call(self, I, args, n):
         return Wild(name="result")
 
+    def assign(self, I, v):
+        return self
+
     def op(self, I, op, rest, n, a0):
+        if op == "=":
+            return self
         if op in ("==", "!=", "<", ">", "<=", ">="):
             return I.ctx.fresh("wild_compare", "bool")
         return Wild(name="result")
@@ -1401,3 +1406,300 @@ class TsPatternMatch(Kernel):
 
 
 KERNELS += [TsPatternMatch]
+
+
+# ------------------------------------------------------------------ normalize_call: defaults cost specificity
+#
+# resolve seeds a candidate's rank adjustment with NormalizedCall::defaults_used ("each default an overload falls back on
+# makes it a little less specific than one whose parameters were all supplied"), which is what separates a candidate with a
+# defaulted trailing parameter from the exact-arity one - so "the unique matching candidate that is most specific" depends
+# on defaults_used counting EVERY parameter that was filled from its declared default, whatever the default is.
+
+NC_DEFAULT = -2
+
+
+class FilledSlot(Obj):
+    cls = "std::optional<WiringArg>"
+
+    def __init__(self, k, vec, idx):
+        Obj.__init__(self, name="filled_slot")
+        self.k, self.vec, self.idx = k, vec, idx
+
+    def m_has_value(self, I, a, n):
+        return I.ctx.store[(self.vec.oid, "has")][self.idx]
+
+    def truth(self, I):
+        return I.ctx.store[(self.vec.oid, "has")][self.idx]
+
+    def assign(self, I, v):
+        c = I.ctx
+        v = c.rv(v)
+        if isinstance(v, CallArg):
+            src = v.i
+        elif isinstance(v, Obj) and getattr(v, "synthesised", False):
+            src = z3.IntVal(NC_DEFAULT)
+            g = self.k.g
+            c.write(Loc((g.oid, "defaults_materialised")), c.store[(g.oid, "defaults_materialised")] + 1)
+        else:
+            raise Gap("filled[...] assigned from %r" % (v,))
+        c.write(Loc((self.vec.oid, "has")), z3.Store(c.store[(self.vec.oid, "has")], self.idx, True))
+        c.write(Loc((self.vec.oid, "src")), z3.Store(c.store[(self.vec.oid, "src")], self.idx, src))
+        return self
+
+    def op(self, I, op, rest, n, a0):
+        if op == "=":
+            return self.assign(I, rest[0])
+        if op == "*":
+            return Wild(name="slot_value")
+        return NotImplemented
+
+    def deref(self, I):
+        return Wild(name="slot_value")
+
+
+class FilledVec(Obj):
+    cls = "std::vector<std::optional<WiringArg>>"
+
+    def __init__(self, k, ctx, n):
+        Obj.__init__(self, name="filled")
+        self.k = k
+        ctx.store[(self.oid, "len")] = n
+        ctx.store[(self.oid, "has")] = z3.K(I_, z3.BoolVal(False))
+        ctx.store[(self.oid, "src")] = z3.K(I_, z3.IntVal(-1))
+
+    def index(self, I, idx, n):
+        I.ctx.oblige("vector-index-in-range@%s" % extract.line_of(n), z3.And(idx >= 0, idx < I.ctx.store[(self.oid, "len")]),
+                     kind="bounds", line=extract.line_of(n))
+        return FilledSlot(self.k, self, idx)
+
+    def op(self, I, op, rest, n, a0):
+        if op == "[]":
+            return self.index(I, I.ctx.rv(rest[0]), n)
+        return NotImplemented
+
+    def m_size(self, I, a, n):
+        return I.ctx.store[(self.oid, "len")]
+
+    def m_begin(self, I, a, n):
+        return models.VecIter(self, z3.IntVal(0))
+
+    def m_end(self, I, a, n):
+        return models.VecIter(self, I.ctx.store[(self.oid, "len")])
+
+    def length(self, ctx):
+        return ctx.store[(self.oid, "len")]
+
+    def elem_loc(self, idx):
+        return FilledSlot(self.k, self, idx)
+
+
+class CallArg(Obj):
+    cls = "WiringArg"
+
+    def __init__(self, k, i):
+        Obj.__init__(self, name="call_arg")
+        self.k, self.i = k, i
+
+    def member(self, ctx, name, node):
+        if name == "name":
+            return self.k.arg_name[self.i]
+        return Wild(name=name)
+
+
+class DefaultOpt(Obj):
+    """std::optional<Value> default_value of parameter p: engaged or not; an engaged one may hold an empty Value (None)"""
+    cls = "std::optional<Value>"
+
+    def __init__(self, k, p):
+        Obj.__init__(self, name="default_value")
+        self.k, self.p = k, p
+
+    def m_has_value(self, I, a, n):
+        return self.k.dflt_declared[self.p]
+
+    def arrow(self, I):
+        v = Wild(name="default")
+        v.m_has_value = lambda I_2, a, n: self.k.dflt_is_a_value[self.p]
+        return v
+
+    def op(self, I, op, rest, n, a0):
+        if op == "*":
+            return Wild(name="default")
+        return NotImplemented
+
+    def deref(self, I):
+        return Wild(name="default")
+
+
+class NormParam(Obj):
+    cls = "ParamPattern"
+
+    def __init__(self, k, p):
+        Obj.__init__(self, name="param")
+        self.k, self.p = k, p
+
+    def member(self, ctx, name, node):
+        if name == "name":
+            return self.k.param_name[self.p]
+        if name == "default_value":
+            return DefaultOpt(self.k, self.p)
+        if name == "kind":
+            return self.k.param_kind[self.p]
+        return Wild(name=name)
+
+
+class NormalizeCall(Kernel):
+    name = "operator_dispatch.cpp:normalize_call"
+    tu = "src/hgraph/types/operator_dispatch.cpp"
+    filter = "normalize_call"
+    fn_name = "normalize_call"
+    property_ids = ("C19",)
+    scope = {"lo": 0, "hi": 3}
+    max_paths = 20000
+    title = "normalize_call: every declared parameter gets the supplied argument or its default, and defaults_used counts exactly " \
+            "the defaults"
+
+    def setup(self, I):
+        ctx = I.ctx
+        self.nargs, self.nparams = z3.Int("n_args"), z3.Int("n_params")
+        self.variadic, self.has_kwargs = z3.Bool("impl_variadic"), z3.Bool("impl_has_kwargs")
+        self.positional_params = z3.Int("impl_positional_params")
+        ctx.assume(z3.And(self.nargs >= 0, self.nparams >= 0, self.positional_params >= 0))
+        A = lambda nm, s=I_: z3.Array(nm, I_, s)
+        self.arg_name, self.param_name, self.param_kind = A("arg_name"), A("param_name"), A("param_kind")
+        self.dflt_declared, self.dflt_is_a_value = A("param_has_default", B_), A("param_default_is_a_value", B_)
+        g = Obj("ghost", "ng")
+        self.g = g
+        ctx.store[(g.oid, "defaults_materialised")] = z3.IntVal(0)
+        impl = Obj("OperatorImpl", "impl")
+        ctx.store[(impl.oid, "variadic")] = self.variadic
+        ctx.store[(impl.oid, "has_kwargs")] = self.has_kwargs
+        ctx.store[(impl.oid, "positional_params")] = self.positional_params
+        ctx.store[(impl.oid, "params")] = Vec(ctx, "params", length=self.nparams, elem=lambda j: NormParam(self, j))
+        out = Obj("NormalizedCall", "out")
+        ctx.store[(out.oid, "defaults_used")] = z3.IntVal(0)
+        kw = Wild(name="kwargs")
+        kw.m_begin = kw.m_end = lambda I_2, a, n: Wild(name="kw_iter")
+        ctx.store[(out.oid, "kwargs")] = kw
+        ctx.store[(out.oid, "args")] = Wild(name="out_args")
+        self.out = out
+        self.filled = None
+        args = Vec(ctx, "args", length=self.nargs, elem=lambda i: CallArg(self, i))
+        return None, {"impl": impl, "args": args, "out": out, "why": Wild(name="why")}
+
+    def ctor_handler(self, qt, node):
+        if "optional<" in qt and "WiringArg" in qt and "vector" in qt and "iterator" not in qt:
+            def mk(I, args, n):
+                self.filled = FilledVec(self, I.ctx, I.ctx.rv(args[0]))
+                return self.filled
+            return mk
+        if "iterator" not in qt and "vector" in qt and "WiringArg" in qt:
+            return lambda I, args, n: Wild(name="tail")
+        if qt.endswith("WiringArg") and "vector" not in qt and "optional" not in qt:
+            def mk(I, args, n):
+                if args:
+                    return I.ctx.rv(args[0])
+                o = Wild(name="synthesised")
+                o.synthesised = True
+                return o
+            return mk
+        return Kernel.ctor_handler(self, qt, node)
+
+    def function_handler(self, name, node, callee_node):
+        if name in ("format", "vformat"):
+            return lambda I, a, n: I.ctx.fresh("text")
+        if name == "append_tail_arg":
+            return lambda I, a, n: I.ctx.fresh("tail_arg_accepted", "bool")
+        if name == "min":
+            return lambda I, a, n: z3.If(I.ctx.rv(a[0]) < I.ctx.rv(a[1]), I.ctx.rv(a[0]), I.ctx.rv(a[1]))
+        if name == "find_if":
+            return lambda I, a, n: Wild(name="kw_iter")
+        if name == "move":
+            return lambda I, a, n: I.ctx.rv(a[0])
+        return Kernel.function_handler(self, name, node, callee_node)
+
+    def method_handler(self, obj, name, node):
+        if isinstance(obj, Wild):
+            if name in ("size",):
+                return lambda I, o, a, n: I.ctx.fresh("wild_size")
+            if name == "empty":
+                return lambda I, o, a, n: I.ctx.fresh("wild_empty", "bool")
+            h = getattr(obj, "m_" + name, None)
+            if h is not None:
+                return None
+            return lambda I, o, a, n: Wild(name=name)
+        return Kernel.method_handler(self, obj, name, node)
+
+    def enum_const(self, I, ref):
+        nm = ref.get("name")
+        tbl = {"TimeSeries": KIND_TS, "Scalar": KIND_SCALAR, "Input": PK_INPUT}
+        if nm == "Scalar" and "ParamPattern" in ref.get("type", {}).get("qualType", ""):
+            return z3.IntVal(PK_SCALAR)
+        if nm in tbl:
+            return z3.IntVal(tbl[nm])
+        raise Gap("enum constant %s" % nm)
+
+    # ---- loops: the bookkeeping invariant is the same everywhere
+    def counted(self, ctx):
+        return ctx.store[(self.out.oid, "defaults_used")] == ctx.store[(self.g.oid, "defaults_materialised")]
+
+    def inv_plain(self, I, ctx):
+        yield "defaults_used=defaults-materialised-so-far[C19 each default an overload falls back on makes it less specific]", self.counted(ctx)
+
+    def inv_positional(self, I, ctx):
+        pos = ctx.rv(self.local(I, "positional"))
+        yield "positional-in-range", z3.And(pos >= 0, pos <= self.nargs, self.counted(ctx))
+
+    def inv_index(self, var):
+        def inv(I, ctx):
+            i = ctx.rv(self.local(I, var))
+            yield "index-non-negative", z3.And(i >= 0, self.counted(ctx))
+        return inv
+
+    def inv_find(self, I, ctx):
+        p, index, fixed = (ctx.rv(self.local(I, nm)) for nm in ("p", "index", "fixed"))
+        yield "found-index-in-range", z3.And(p >= 0, index >= 0, index <= fixed, self.counted(ctx))
+
+    def inv_move_out(self, I, ctx):
+        pos = self.range_pos(I)
+        yield "cursor-in-range", z3.And(pos >= 0, pos <= ctx.store[(self.filled.oid, "len")], self.counted(ctx))
+
+    def inv_defaults(self, I, ctx):
+        p = ctx.rv(self.local(I, "p"))
+        has = ctx.store[(self.filled.oid, "has")]
+        yield "parameters-below-the-cursor-all-have-a-value;defaults_used=defaults-materialised[C19]", z3.And(
+            p >= 0, self.counted(ctx), z3.ForAll([qa], z3.Implies(z3.And(qa >= 0, qa < p), has[qa])))
+
+    def frame_filled(self, I, ctx):
+        if self.filled is None:
+            return []
+        return [Loc((self.filled.oid, "has")), Loc((self.filled.oid, "src"))]
+
+    def frame_defaults(self, I, ctx):
+        return self.frame_filled(I, ctx) + [Loc((self.out.oid, "defaults_used")), Loc((self.g.oid, "defaults_materialised"))]
+
+    @property
+    def loops(self):
+        return {0: LoopSpec(self.inv_positional, lambda I, ctx: []),
+                1: LoopSpec(self.inv_index("i"), lambda I, ctx: []),
+                2: LoopSpec(self.inv_index("i"), self.frame_filled),
+                3: LoopSpec(self.inv_index("i"), self.frame_filled),
+                4: LoopSpec(self.inv_find, lambda I, ctx: []),
+                5: LoopSpec(self.inv_defaults, self.frame_defaults),
+                6: LoopSpec(self.inv_move_out, lambda I, ctx: []),
+                7: LoopSpec(self.inv_plain, lambda I, ctx: [])}
+
+    def post(self, I, ret):
+        ctx = I.ctx
+        ret = ret if z3.is_bool(ret) else ret != 0
+        fixed = z3.If(z3.And(self.variadic, self.nparams > 0), self.nparams - 1, self.nparams)
+        ok = [self.counted(ctx)]
+        if self.filled is not None:
+            has = ctx.store[(self.filled.oid, "has")]
+            ok.append(z3.ForAll([qa], z3.Implies(z3.And(qa >= 0, qa < fixed), has[qa])))
+        ctx.oblige("ensures.accepted=>every-declared-parameter-has-a-value-and-defaults_used-counts-exactly-the-parameters-filled-from-"
+                   "their-default[C19 the unique matching candidate that is most specific: a candidate that falls back on a default, "
+                   "of any kind, ranks behind the exact-arity one]", z3.Implies(ret, z3.And(*ok)), kind="post-normal")
+
+
+KERNELS += [NormalizeCall]
